@@ -142,6 +142,11 @@ fn run(line: &str) -> String {
                 "vec_u64" => vec![1u64; n].wire_size(),
                 "slice_u8" => vec![1u8; n][..].wire_size(),
                 "slice_u32" => vec![1u32; n][..].wire_size(),
+                "slice_string" => (0..n).map(|i| "a".repeat(i)).collect::<Vec<String>>()[..].wire_size(),
+                "slice_vec_u32" => (0..n).map(|i| vec![1u32; i]).collect::<Vec<Vec<u32>>>()[..].wire_size(),
+                "vec_vec_u32" => (0..n).map(|i| vec![1u32; i]).collect::<Vec<Vec<u32>>>().wire_size(),
+                "opt_string" => Some("a".repeat(n)).wire_size(),
+                "box_vec_u32" => Box::new(vec![1u32; n]).wire_size(),
                 "vec_string" => (0..n).map(|i| "a".repeat(i)).collect::<Vec<String>>().wire_size(),
                 "opt_none" => (None as Option<u32>).wire_size(),
                 "opt_u32" => Some(1u32).wire_size(),
